@@ -138,7 +138,7 @@ pub fn read_input(kind: i64, bytes: &[u8], aux: &[i64]) -> Result<Vec<ArrayRef>,
         K_PQ_ARROW => {
             use parquet::arrow::arrow_reader::{ArrowReaderOptions, ParquetRecordBatchReaderBuilder};
             let data = bytes::Bytes::from(bytes.to_vec());
-            let opts = ArrowReaderOptions::new().with_page_index(a0 == 1);
+            let opts = ArrowReaderOptions::new().with_page_index_policy(if a0 == 1 { parquet::file::metadata::PageIndexPolicy::Optional } else { parquet::file::metadata::PageIndexPolicy::Skip });
             let b = ParquetRecordBatchReaderBuilder::try_new_with_options(data, opts).map_err(|_| ())?;
             let rd = b.with_batch_size(if a0 == 1 { 3 } else { 1024 }).build().map_err(|_| ())?;
             let mut out = Vec::new();
